@@ -1,8 +1,8 @@
 import Driver.Codec
-import CardVerif.Model.Evaluators
-import CardVerif.Spec.Poker5
-import CardVerif.Spec.Strength
-import CardVerif.Model.Omaha
+import CardModel.Model.Evaluators
+import CardModel.Spec.Poker5
+import CardModel.Spec.Strength
+import CardModel.Model.Omaha
 open Lean CardVerif CardVerif.Codec
 
 namespace CardVerif.Driver
